@@ -90,11 +90,19 @@ Leaf(i, inc) ==
     [] i = 7 -> Ell("ellipse", -2, 3, 10, 4, <<5, -12, 13>>, inc)
     [] i = 8 -> Poly(<< <<0, 0>>, <<8, 0>>, <<8, 3>>, <<3, 3>>, <<3, 8>>, <<0, 8>> >>, inc)
     [] i = 9 -> EAnn("rannulus", 2, -1, <<2, 4, 6, 8>>, <<4, 3, 5>>, inc)
+    [] i = 10 -> [k |-> "point", cx |-> 21, cy |-> 1, inc |-> inc]                                  \* on a pixel edge (x = 10.5): its own box holds no pixel
+    [] i = 11 -> [k |-> "line", x1 |-> 25, y1 |-> -3, x2 |-> 25, y2 |-> 9, inc |-> inc]           \* along a pixel edge (x = 12.5)
+    [] i = 12 -> [k |-> "text", cx |-> -19, cy |-> -23, inc |-> inc]                                \* on a pixel corner
 OpsAll == {"and", "or", "xor"}
 FamPairs ==      \* operator-built: the compound shares region1's meta, hence its include flag
   {Comp(op, Leaf(i, inc), Leaf(j, "absent"), inc, "operator") : i \in 1..9, j \in 1..9, op \in OpsAll, inc \in {"absent", "F"}}
   \cup {Comp(op, Leaf(i, "absent"), Leaf(j, incb), "absent", "operator") : i \in {1, 6}, j \in 1..9, op \in OpsAll, incb \in {"F", "0"}}
   \cup {Comp(op, Leaf(i, "absent"), Leaf(j, "absent"), inc, "ctor") : i \in {1, 2, 6, 8}, j \in 1..9, op \in OpsAll, inc \in {"F", "0", "T"}}
+(* operands without area lying exactly on pixel edges: the compound's box is still the union (hull) of the operand boxes *)
+FamPairsDegenerate ==
+  {Comp(op, Leaf(i, "absent"), Leaf(j, "absent"), "absent", "operator") : i \in {1, 6, 8}, j \in {10, 11, 12}, op \in {"or", "xor"}}
+  \cup {Comp("or", Leaf(j, "absent"), Leaf(i, "absent"), "absent", "operator") : i \in {1, 8}, j \in {10, 11, 12}}
+  \cup {Comp("or", Leaf(10, "absent"), Leaf(11, "absent"), "absent", "operator")}
 Small == {1, 2, 6, 8}
 FamDeep ==
   {Comp(o2, Comp(o1, Leaf(i, "absent"), Leaf(j, "absent"), "absent", "operator"), Leaf(l, "absent"), "absent", "operator") :
@@ -120,7 +128,7 @@ FamMaskCompound ==
 FamUnsupported == FamOthers
 
 FamSimple == FamCircles \cup FamEllipses \cup FamRectangles \cup FamPolygons \cup FamAnnuli \cup FamOthers
-FamCompound == FamPairs \cup FamDeep
+FamCompound == FamPairs \cup FamDeep \cup FamPairsDegenerate
 FamAll == FamSimple \cup FamCompound
 
 (* ---------------- state machine ---------------- *)
